@@ -314,6 +314,12 @@ def _alloc_candidates_multiple_providers(rg_ctx, rw_ctx, rp_candidates):
     # values of rp_tuples because while sharing providers are root providers,
     # they have their "anchor" providers for the second value.
     root_ids = rp_candidates.all_rps
+    # A sharing provider need not be a root: make sure the tree it lives in
+    # is loaded as well, not only the tree of its anchor.
+    for rc_id in rg_ctx.resources:
+        root_ids |= set(
+            root_id for rp_id, root_id in rg_ctx.get_rps_with_resource(rc_id)
+            if rp_id in rp_candidates.rps)
 
     # Get a dict, keyed by resource provider internal ID, of trait string names
     # that provider has associated with it
